@@ -339,6 +339,10 @@ def gen_literals(run):
             "left-of-pow": f"10 Z={lit}^2\n",
             "right-of-pow": f"10 Z=2^{lit}\n" if not lit.startswith(("&HFFFF", "655", "327", "123", "&H8", "&H7")) else None,
             "after-minus": f"10 B=3:Z=B-{lit}\n",
+            # two literals meeting in one operator (BASIC09 would use INTEGER arithmetic if both came out as INTEGER constants)
+            "lit-div-lit": f"10 Z={lit}/&H2:Y=&HF/{lit}\n" if lit.lstrip("+- ").replace(" ", "").startswith("&H") and re.sub(r"[^1-9A-F]", "", lit.replace("&H", "").replace("& H", "")) else None,
+            "lit-div-dec": f"10 Z={lit}/2:Y=7/{lit}\n" if re.fullmatch(r"[0-9]+", lit) and int(lit) else None,
+            "lit-op-lit": f"10 Z={lit}*{lit}:Y={lit}+{lit}:X={lit}-&H1\n" if re.fullmatch(r"[0-9]+|& *H *[0-9A-F]+", lit) else None,
             "times": f"10 B=3:Z=B*{lit}+1\n",
             "compare": f'10 B=1:IF B={lit} THEN PRINT "T" ELSE PRINT "F"\n',
             "compare-lt": f'10 B=1:IF B<{lit} THEN PRINT "T" ELSE PRINT "F"\n',
@@ -393,6 +397,19 @@ def gen_functions(run):
     for e in ("CHR$(INT(65.5))", "STR$(LEN(S$))", "LEFT$(S$,INT(2.5))", "MID$(S$,LEN(T$),1)", "STRING$(LEN(T$),S$)", "HEX$(ASC(S$))", "CHR$(ASC(S$)+1)", "RIGHT$(LEFT$(S$,2),1)"):
         m = re.match(r"[A-Z]+\$?", e)
         cases.append({"text": f'10 S$="ABC":T$="12"\n20 Z$={e}\n', "features": {"function", "nested", "fn:" + m.group(0)}, "origin": e})
+    rep = [("INT(R/2)", "R=R+3"), ("VAL(T$)", 'T$="45"'), ('INSTR(1,S$,"B")', 'S$="XXB"'), ("LEN(STR$(R))", "R=R*100"), ("ABS(INT(R))", "R=-R-1"), ("INT(R)+INT(R)", "R=R+0.5")]
+    for e, change in rep:
+        pre = '10 S$="ABC":T$="12":R=5.5\n'
+        fnf = {"fn:" + w for w in re.findall(r"[A-Z]+\$?(?=\()", e)}
+        cases.append({"text": pre + f"20 X={e}+1:{change}:Y={e}+1\n", "features": {"function", "repeated-call"} | fnf, "origin": f"repeated {e} / {change}"})
+        cases.append({"text": pre + f"20 X={e}:{change}:Y={e}:Z={e}+{e}\n", "features": {"function", "repeated-call"} | fnf, "origin": f"repeated-direct {e} / {change}"})
+        for a in (1, 2):
+            cases.append({"text": pre + f"20 A={a}:IF A=1 THEN B={e}+1 ELSE D={e}+2\n30 {change}:IF A=2 THEN B={e}+3 ELSE D={e}+4\n", "features": {"function", "repeated-call", "if-arms"} | fnf, "origin": f"arms {e} A={a}"})
+    for a in ("-2.5", "-0.25", "2.5", "-3", "0"):
+        cases.append({"text": f"10 X={a}:X=INT(X):Y={a}:Y=INT(Y)+INT(Y)\n", "features": {"function", "result-into-operand", "fn:INT"}, "origin": f"X=INT(X) {a}"})
+        cases.append({"text": f"10 X={a}:X=ABS(INT(X)):M(1)={a}:M(1)=INT(M(1))\n", "features": {"function", "result-into-operand", "fn:INT"}, "origin": f"X=ABS(INT(X)) {a}"})
+    for t in ('S$=STRING$(2,S$)', 'S$=HEX$(LEN(S$))', 'T=1:T=INSTR(T,S$,"C")', 'T$=STR$(VAL(T$))', 'X=3:X=VAL(T$)+X'):
+        cases.append({"text": f'10 S$="ABC":T$="12"\n20 {t}\n', "features": {"function", "result-into-operand"} | ({"fn:STR$"} if "STR$" in t else set()), "origin": t})
     # functions inside IF conditions: every branch form; thresholds on both sides of the Color BASIC value
     import math
     from vf.decb import model as D
